@@ -24,7 +24,7 @@ RULE = ('inputs: corpus and Annex A derivations biased towards nesting (blocks, 
 ASSUMPTIONS = ['structural depth of the output is computed from the refjs tree of the output itself; continuation lines '
                'of multi-line string / comment tokens and lines that start with a comment are exempt']
 BUDGET_S = {'quick': 60, 'thorough': 700}
-REQUIRED_HITS = ['pretty_print', 'used_printer', 'shape', 'lines_checked', 'Indentator.indent', 'Indentator.dedent', 'level_zero_at_end']
+REQUIRED_HITS = ['pretty_print', 'used_printer', 'shape', 'deep_shape', 'lines_checked', 'Indentator.indent', 'Indentator.dedent', 'level_zero_at_end']
 FLOOR = {'quick': 1500, 'thorough': 20000}
 
 INDENTS = ['  ', '\t', '', ' ', '   ', '    ', ' \t']
@@ -247,9 +247,32 @@ SHAPES = ['{{}}', ';{{}}', '{{};}', '{{}a;}', '{{{}}{}}', '{;{;}}', '{{}{}}', '{
           '{{//c\n}}', '/*c*/{{}}', '{{}}//c', '{{}}\n{{}}', 'while(a){}', 'while(a){{}}', 'if(a){}', 'if(a){{}}', '']
 
 
+def deep_shapes():
+    """nesting well beyond what programs written by hand reach (the printers recurse: depth 150 is far
+    from the interpreter's limit, see DESIGN 2.7)"""
+    out = []
+    for n in (40, 66, 90):
+        out.append('{' * n + 'a;' + '}' * n)
+        out.append('function f(){' * n + 'return 1;' + '}' * n)
+        out.append('x = ' + '{a:' * n + '1' + '}' * n + ';')
+        out.append('switch(a){case 1:' * (n // 2) + 'b;' + '}' * (n // 2))
+        out.append('if (a) {' * n + 'b;' + '} else { c; }' * n)
+        out.append(''.join('try {' if i % 2 else 'while (a) {' for i in range(n)) + 'x;' +
+                   ''.join('}' if i % 2 == 0 else '} finally {}' for i in reversed(range(n))))
+    return out
+
+
 def run(ctx):
     levels = Levels(ctx).install()
     try:
+        for k, text in enumerate(deep_shapes()):
+            if k % ctx.nshards != ctx.shard:
+                continue
+            try:
+                check(ctx, levels, text, ['  ', '\t'], False, 'deep_shape', history=False)
+            except RecursionError:
+                ctx.count('skipped:resource_limit')       # the harness's own recursive helpers
+            ctx.hit('deep_shape')
         for k, text in enumerate(SHAPES):
             if k % ctx.nshards != ctx.shard:
                 continue
